@@ -226,9 +226,10 @@ def FlatsWf (opts : List Coin) : Prop := (opts.map (·.1)).Nodup ∧ ∀ o ∈ o
 def RatiosWf (rs : List Ratio) : Prop :=
   (rs.map fun r => (r.pd, r.fd)).Nodup ∧ ∀ r ∈ rs, 0 < r.pa ∧ 0 ≤ r.fa
 
-/-- no product formed for this price needs more than 256 bits -/
+/-- no ratio fee for this price needs more than 256 bits (since the repair of
+`FeeRatio.applyLooselyTo` the product itself may be of any size) -/
 def RatiosFit (rs : List Ratio) (price : Coin) : Prop :=
-  ∀ r ∈ rs, r.pd = price.1 → fits256 (price.2 * r.fa) = true
+  ∀ r ∈ rs, r.pd = price.1 → fits256 (Fees.ceilDiv (price.2 * r.fa) r.pa) = true
 
 instance (rs : List Ratio) (price : Coin) : Decidable (RatiosFit rs price) := by
   unfold RatiosFit; exact inferInstance
